@@ -22,7 +22,7 @@ func TestMain(m *testing.M) {
 			"flag value or another target) and a history of 4-14 operations: edits (source content/same content/revert, directory add/delete/rename/edit, "+
 			"constants within and across classes incl. 256..65535, body and helper code, comments, docstrings, dependency edges, added/removed sources, "+
 			"deleted generated files, flag values, unrelated files) interleaved with builds of arbitrary sub-targets (in process on a fresh Load or in a "+
-			"fresh child process; normal, always, dry, or with a chosen body of the closure failing) and load-only operations (with or without the index). Every body writes a digest of all its inputs. Oracle: after every "+
+			"fresh child process; normal, always, dry, with a chosen body of the closure failing, or interrupted: the child process dies at the n-th hit of one of 12 named points inside bodies, record writes and the index write) and load-only operations (with or without the index). Every body writes a digest of all its inputs. Oracle: after every "+
 			"build that reports success for X, the output and generated files of every target in X's closure (computed from the spec) are byte-equal to "+
 			"those of a from-scratch build of a copy of the same tree; no body ran twice in one build. Non-trivial = a successful build whose closure had "+
 			"a net input change pending and that was preceded by a partial, failed or dry build since that change, or a hard edit class (256..65535 "+
@@ -64,7 +64,8 @@ func exec(c Case) (v ev.Verdict) {
 
 	dirty := map[int]bool{}   // targets with a pending net input change
 	hardDirty := false        // pending change came from a hard edit class
-	interleaved := false      // a partial / failed / dry build happened while something was dirty
+	interleaved := false      // a partial / failed / dry / interrupted build happened while something was dirty
+	crashedSince := false     // a build was interrupted and no successful build has been checked since
 	classes := map[string]bool{}
 	for n, op := range c.Ops {
 		if op.Kind == "load" {
@@ -101,7 +102,7 @@ func exec(c Case) (v ev.Verdict) {
 		if len(live) == 0 {
 			continue
 		}
-		id := live[op.T%len(live)]
+		id := m.BuildTarget(op)
 		label := m.Label(id)
 		if m.Targets[id].Default && op.I%2 == 1 {
 			label = m.Pkgs[m.Targets[id].Pkg] + ":default"
@@ -112,8 +113,11 @@ func exec(c Case) (v ev.Verdict) {
 			sim.SetFail(m.Targets[cl[f%len(cl)]].Name(), true)
 		}
 		req := projsim.BuildReq{Label: label, Always: op.Always, DryRun: op.Dry, PreferIndex: false}
+		if op.Crash != "" {
+			req.CrashSite, req.CrashHit = op.Crash, op.CrashHit
+		}
 		var res projsim.BuildResult
-		if op.Child {
+		if op.Child || op.Crash != "" {
 			res = sim.ChildBuild(req)
 			classes["build:child"] = true
 		} else {
@@ -121,6 +125,15 @@ func exec(c Case) (v ev.Verdict) {
 		}
 		sim.ClearFails()
 		where := fmt.Sprintf("op %d (build %s always=%v dry=%v child=%v fail=%v)", n, label, op.Always, op.Dry, op.Child, op.Fail)
+		if res.Crashed {
+			// the process died at the armed point: an interrupted build. Nothing is claimed about it;
+			// the builds after it are held to the same oracle as ever.
+			classes["build:interrupted"] = true
+			classes["interrupted-at:"+op.Crash] = true
+			interleaved = true
+			crashedSince = true
+			continue
+		}
 		if res.Panic != "" {
 			return ev.Failf("panic", "%s: panic: %s", where, res.Panic)
 		}
@@ -212,6 +225,11 @@ func exec(c Case) (v ev.Verdict) {
 				}
 			}
 		}
+		if crashedSince {
+			classes["build:after-interruption"] = true
+			crashedSince = false
+			v.NonTrivial = true
+		}
 		if anyDirty {
 			classes["build:after-change"] = true
 			if interleaved || hardDirty {
@@ -248,7 +266,11 @@ func gen(t *rapid.T) Case {
 				ops = append(ops, projsim.GenEdit(t, projsim.NoopEdits()))
 			}
 		default:
-			ops = append(ops, projsim.GenBuild(t, true, true, run.Tier == "thorough"))
+			b := projsim.GenBuild(t, true, true, run.Tier == "thorough")
+			if rapid.IntRange(0, 7).Draw(t, "interrupt") == 5 {
+				b = projsim.GenCrash(t, b)
+			}
+			ops = append(ops, b)
 		}
 	}
 	if rapid.IntRange(0, 2).Draw(t, "pattern") == 2 {
@@ -262,6 +284,22 @@ func gen(t *rapid.T) Case {
 			ops = append(ops, projsim.Op{Kind: "build", T: rapid.IntRange(0, 11).Draw(t, "py")})
 		}
 		ops = append(ops, projsim.Op{Kind: "build", T: x})
+	}
+	if rapid.IntRange(0, 3).Draw(t, "pattern2") == 3 {
+		// A-B-A around an interrupted build: a source changes, a build is interrupted, the change is
+		// taken back, another target is built, then the first again
+		x, a, i := rapid.IntRange(0, 11).Draw(t, "qx"), rapid.IntRange(0, 11).Draw(t, "qa"), rapid.IntRange(0, 11).Draw(t, "qi")
+		owner := rapid.IntRange(0, 2).Draw(t, "qowner") > 0
+		if owner {
+			x = a // the interrupted build is aimed at the target that declares the edited source
+		}
+		ops = append(ops, projsim.Op{Kind: "src-revert", T: a, I: i})
+		ops = append(ops, projsim.Op{Kind: "build", T: x, Owner: owner})
+		ops = append(ops, projsim.Op{Kind: "src-new", T: a, I: i, S: "interrupted edit\n"})
+		ops = append(ops, projsim.GenCrash(t, projsim.Op{Kind: "build", T: x, Owner: owner, Always: rapid.IntRange(0, 3).Draw(t, "qalways") == 3}))
+		ops = append(ops, projsim.Op{Kind: "src-revert", T: a, I: i})
+		ops = append(ops, projsim.Op{Kind: "build", T: rapid.IntRange(0, 11).Draw(t, "qy")})
+		ops = append(ops, projsim.Op{Kind: "build", T: x, Owner: owner})
 	}
 	ops = append(ops, projsim.GenBuild(t, false, false, false))
 	return Case{M: m, Ops: ops}
